@@ -3,18 +3,26 @@ import random
 import common as C
 import gen as G
 import cont
+import codecloop
 
-MODEL_TARGETS = ["model/Container.vo"]
+MODEL_TARGETS = ["model/Container.vo", "model/CodecLoop.vo"]
 COQ_TARGETS = ["props/C05.vo", "proofs/ConstsTie.vo"]
-THEOREMS = [("C05", ["C05_roundtrip_null", "C05_roundtrip_file", "C05_any_buffered_reader", "C05_build", "C05_blocks", "C05_any_partition"])]
-PROOF_FILES = ["proofs/ContainerReadProofs.v", "proofs/ContainerProofs.v", "proofs/ContainerFinal.v", "proofs/RoundTripProofs.v", "props/C05.v", "proofs/ContainerHeaderProofs.v", "proofs/ContainerChunkProofs.v"]
+THEOREMS = [("C05", ["C05_roundtrip_null", "C05_roundtrip_file", "C05_any_buffered_reader", "C05_build", "C05_blocks", "C05_any_partition",
+                     "C05_loop_returns_full_stream", "C05_loop_returns_valid_stream", "C05_loop_any_classification",
+                     "C05_contract_inhabited", "C05_loop_before_fix_refuted",
+                     "C05_snappy_framing_roundtrip", "C05_snappy_crc_checked", "C05_snappy_short_block"])]
+PROOF_FILES = ["proofs/ContainerReadProofs.v", "proofs/ContainerProofs.v", "proofs/ContainerFinal.v", "proofs/RoundTripProofs.v", "proofs/CodecLoopProofs.v", "proofs/ContainerHeaderProofs.v", "proofs/ContainerChunkProofs.v", "props/C05.v"]
 TRUSTED_BASE = [
     "Coq 8.16.1 kernel; no axioms (Print Assumptions: closed)",
     "hand-written model/Container.v of writer/mod.rs and reader/mod.rs (block compressor abstract in the writer; the reader model is the null codec), tied by the correspondence runs of C15/C16/C17 (per-call outcomes, sink bytes, item sequences)",
-    "the compression libraries (flate2/miniz_oxide, bzip2, snap, xz2, zstd), the grow-the-buffer encode loops of writer/compression.rs and the streaming decoders of reader/decompression.rs are OUTSIDE the model: for them the property is decided on the crate only",
+    "hand-written model/CodecLoop.v of writer/compression.rs (the three grow-the-buffer encode loops, snappy framing with the reader-side CRC check), tied to the crate by hook H3 (hooks/H3.diff: overridable start length of the output buffer, per-call trace): every recorded trace is replayed through the extracted model loop, which must make the same calls (input length, window length), take the same decision and hand on the same bytes",
+    "the compression libraries (flate2/miniz_oxide, bzip2, snap, xz2, zstd) are ABSTRACT: the loop theorems hold for every library meeting CodecLoop.stream_contract_valid (resp. stream_contract); each clause is validated on the real traces of every run (coverage.notes.codec_loops), not proved of the libraries; the streaming decoders of reader/decompression.rs are OUTSIDE the model: for them the property is decided on the crate only",
+    "OCaml driver commands codecloop / snappy (parsing and printing only), harness command codecloop (push_serialized + finish_block on one container writer; independent oracles: one library call with a large buffer, the library's own decoder; zlib.crc32 of Python for the snappy trailer)",
     "Rust harness (container writer/reader driver, chunk-controlled BufRead)",
 ]
 ASSUMPTIONS = [
+    "proved (CodecLoopProofs.v): for every library meeting stream_contract_valid, every input, every output buffer of length >= 1 left by previous blocks (empty: START >= 1), each of the three encode loops (deflate, bzip2, xz status classifications as in the crate) ends with StreamEnd and a true assertion -- no Err, no panic --, within |x| + obound x + 1 library calls, and hands a valid complete stream for x to the block writer; under stream_contract (the stream is a function enc of the input) exactly enc x; final buffer length = initial * 2^(calls-1); if 'not finished' is only answered with a full window: calls = 1 or initial * 2^(calls-2) <= |stream|; the classifications before ef7c759 are refuted; the contract is inhabited; snappy framing round trips and rejects any other trailer. NOT modelled: usize overflow of the doubling, allocation failure, the zstandard/snappy libraries (one call each)",
+    "observed by the run, reported in coverage.notes: miniz_oxide at level 1 does not meet the stronger contract (its stream depends on where the output windows ended; both streams decode) -- only stream_contract_valid applies to it",
     "proved: write-then-read = identity for the null codec -- every list of conforming values, every approx_block_size, every interleaving of serialize / push / finish_block, closing by finish_block, into_inner or drop, every sink schedule on which the calls return Ok; any partition into blocks reads back (C05_any_partition); the whole file incl. the header (C05_roundtrip_file: cr_open returns the metadata written) and through a BufRead with any chunking (C05_any_buffered_reader)",
     "decided on the crate for all six codecs and their levels: block sizes {0,1,2,17,64,4096,32767..65536,1 MiB}, payloads crossing the 32 KiB encode buffer and the 8 KiB BufReader (8189..8193, 32766, 32768, 40000, 70000 bytes, compressible and incompressible), zero-byte datums, explicit flushes and pushes, failing values; read back from a slice and through chunked readers (1, 2, 7, 4096 bytes per refill)",
 ]
@@ -101,9 +109,25 @@ def run(ctx):
         if not ok:
             violations.append({"impl_case": wline[:3000], "what": "read back (%s) differs from what was written: %s" % (mode, why),
                                "reader_case": line[:3000]})
-    return {"evaluations": len(wl) + len(rl), "distinct_nontrivial": len(distinct),
+    notes = {}
+    extra_eval = 0
+    extra_distinct = set()
+    for part in (codecloop.run_loops, codecloop.run_snappy, codecloop.run_oneshot):
+        r = part(random.Random(ctx["seed"] * 7919 + 55), ctx["tier"])
+        violations.extend(r["violations"])
+        diffs.extend(r["diffs"])
+        notes.update(r["notes"])
+        extra_eval += r["evaluations"]
+        samples = r.get("samples", [])[:3] + samples
+        extra_distinct |= r.get("distinct", set())
+    return {"evaluations": len(wl) + len(rl) + extra_eval, "distinct_nontrivial": len(distinct) + len(extra_distinct), "notes": notes,
             "rule": "histories (values, failing values, pushes, finish_block, into_inner/drop) x 12 codec/level settings (all six codecs) x "
                     "approx_block_size in {0,1,2,17,64,4096,32768,65535,65536,2^20}, plus payloads that cross internal buffers (8189..70000 "
                     "incompressible/compressible bytes, zero-byte datums); every file read back from a slice and from chunked readers "
-                    "(1 byte per fill_buf, small and irregular chunks): exactly the written values in order then end of stream; reader model vs crate (null codec)",
+                    "(1 byte per fill_buf, small and irregular chunks): exactly the written values in order then end of stream; reader model vs crate (null codec); "
+                    "encode loops (hook H3): codecs {deflate, bzip2, xz} x levels x START in {1,2,64,4096,32768} x inputs {empty, 1 byte, random / constant / text payloads "
+                    "of START-1..START+1, 2*START-1..2*START+1, 4*START-1..4*START+1 bytes (text x3)} on a fresh codec state, plus sequences of blocks on one codec state "
+                    "(big, 1 byte, empty, text, bigger; empty, empty, growing, big, 1 byte): every trace replayed through the extracted model loop (same calls, decision, bytes), "
+                    "every clause of stream_contract_valid checked on it, block = one-call stream of the library, library decoder gives the input back; snappy: trailer = "
+                    "big-endian zlib.crc32, model framing = crate bytes, bit-flipped and little-endian trailers rejected by crate and model; snappy/zstandard codec state reused big then small",
             "samples": samples, "violations": violations, "model_diffs": diffs}
